@@ -138,6 +138,128 @@ def rule_I10(ctx):
            "aborts the whole directory", inst="akai-table:raw-read")
 
 
+# exceptions that construct itself derives from ConstructError (construct 2.10 class hierarchy)
+_CONSTRUCT_ERRORS = {"ConstructError", "SizeofError", "AdaptationError", "ValidationError", "CancelParsing", "CipherError", "RebufferedIOError", "MappingError", "IntegerError",
+                     "StringError", "FormatFieldError", "StreamError", "RangeError", "RepeatError", "ConstError", "IndexFieldError", "CheckError", "ExplicitError",
+                     "NamedTupleError", "TimestampError", "UnionError", "SelectError", "SwitchError", "StopFieldError", "PaddingError", "TerminatedError", "RawCopyError",
+                     "RotationError", "ChecksumError", "CancelParsing"}
+# raises on the Roland sample path that cannot fire there, confirmed by reading (frozen: a new raise is not covered)
+I11_UNREACHABLE = {
+    ("FileAllocationTable.get_path", "RequestedInvalidSector"):
+        "the Roland table has FAT_NUM_ENTRIES = 0x10000 entries and a chain starts at an Int16ul directory field / continues with stored 16-bit links: never past the table",
+    ("FileAllocationTable.get_path", "InvalidFatDefinition"):
+        "the Roland decoder rejects looping chains when the table is decoded (D1r), so a stored chain ends within `size` steps",
+    ("SampleEntryAdapter._decode_element", "FatNotPresent"):
+        "the image parser parses the FAT area before the directory areas and hands it down in the context of every sample record",
+}
+
+
+def rule_I11(ctx):
+    """damage (C14): realising one Roland sample can only fail with an exception that the tolerant record loops swallow - a failure
+    of any other type would abort the whole listing / export instead of the one sample"""
+    prog = ctx.prog
+    # what the tolerant loops swallow: the handler around each reference in PartialEntryAdapter._parse and around each list element in
+    # SafeListConstruct._parse (a sample is realised under one or the other)
+    pa = ctx.fn(RO + "partial_entry.py", "PartialEntryAdapter._parse", "I11")
+    sl = ctx.fn("smpl_extract/util/constructs.py", "SafeListConstruct._parse", "I11")
+    handled = None
+    for fn_ in (pa, sl):
+        loops = [l_ for l_ in own_nodes(fn_) if isinstance(l_, (ast.For, ast.While))]
+        names = set()
+        for l_ in loops:
+            for t_ in ast.walk(l_):
+                if isinstance(t_, ast.Try) and any(isinstance(c_, ast.Call) and isinstance(c_.func, ast.Attribute) and c_.func.attr in ("_parse", "_parsereport", "parse_stream") for b_ in t_.body for c_ in ast.walk(b_)):
+                    for h_ in t_.handlers:
+                        if not any(isinstance(x_, ast.Raise) for st_ in h_.body for x_ in ast.walk(st_)):
+                            names |= set(handler_names(h_))
+        if not names:
+            raise AnalysisError("I11", where(fn_), "tolerant record loop (try around the element parse) not found")
+        handled = names if handled is None else (handled & names)
+    ctx.fact("I11", "handled", sorted(handled))
+
+    def covered(exc):
+        if exc in handled or "<bare>" in handled or "Exception" in handled or "BaseException" in handled:
+            return True
+        if exc in _CONSTRUCT_ERRORS and "ConstructError" in handled:
+            return True
+        # package class: walk its bases
+        for m_, q_, c_ in prog.all_classes():
+            if c_.name == exc:
+                for b_ in c_.bases:
+                    bn = (dotted(b_) or "").split(".")[-1]
+                    if bn and bn != exc and covered(bn):
+                        return True
+        builtin_parents = {"KeyError": "LookupError", "IndexError": "LookupError", "UnicodeDecodeError": "UnicodeError", "UnicodeError": "ValueError",
+                           "FileNotFoundError": "OSError", "NotImplementedError": "RuntimeError"}
+        par = builtin_parents.get(exc)
+        return covered(par) if par else False
+
+    root_cls = prog.klass(RO + "fat.py", "RolandFileAllocationTable", "I11")
+    root = prog.find_method(root_cls, "get_file")
+    if root is None:
+        raise AnalysisError("I11", RO + "fat.py", "RolandFileAllocationTable.get_file not found")
+    se_cls = prog.klass(RO + "sample_entry.py", "SampleEntryAdapter", "I11")
+    se = prog.find_method(se_cls, "_decode_element")
+    if se is None:
+        raise AnalysisError("I11", RO + "sample_entry.py", "SampleEntryAdapter._decode_element not found")
+    seen, work = {}, [(root, root_cls, 0), (se, se_cls, 0)]
+    while work:
+        fn_, cls_, d_ = work.pop()
+        if id(fn_) in seen or d_ > 5:
+            continue
+        seen[id(fn_)] = (fn_, cls_)
+        for c_ in own_nodes(fn_):
+            if not isinstance(c_, ast.Call):
+                continue
+            f_ = c_.func
+            if isinstance(f_, ast.Attribute) and isinstance(f_.value, ast.Name) and f_.value.id == "self" and cls_ is not None:
+                m_ = prog.find_method(cls_, f_.attr)
+                if m_ is not None:
+                    work.append((m_, cls_, d_ + 1))
+            elif isinstance(f_, ast.Attribute) and isinstance(f_.value, ast.Call) and isinstance(f_.value.func, ast.Name) and f_.value.func.id == "super" and cls_ is not None:
+                own_cls = enclosing_class(fn_)
+                mro_ = prog.mro(cls_)
+                if own_cls in mro_:
+                    for k_ in mro_[mro_.index(own_cls) + 1:]:
+                        m_ = next((st_ for st_ in k_.body if isinstance(st_, ast.FunctionDef) and st_.name == f_.attr), None)
+                        if m_ is not None:
+                            work.append((m_, cls_, d_ + 1))
+                            break
+            elif isinstance(f_, ast.Name):
+                r_ = prog.resolve(fn_._module, f_.id)
+                if r_ and r_[0] == "func":
+                    work.append((r_[1], None, d_ + 1))
+                elif r_ and r_[0] == "class":
+                    init_ = prog.find_method(r_[1], "__init__")
+                    if init_ is not None:
+                        work.append((init_, r_[1], d_ + 1))
+    n = 0
+    for fn_, cls_ in seen.values():
+        for r_ in own_nodes(fn_):
+            if not isinstance(r_, ast.Raise) or r_.exc is None:
+                continue
+            e_ = r_.exc.func if isinstance(r_.exc, ast.Call) else r_.exc
+            exc = (dotted(e_) or "?").split(".")[-1]
+            if isinstance(e_, ast.Name) and any(isinstance(getattr(x_, "_parent", None), ast.ExceptHandler) and getattr(x_._parent, "name", None) == e_.id for x_ in [r_]):
+                continue  # `raise e` of the caught exception itself
+            if find_try_handler(r_, fn_, {exc}) is not None:
+                continue
+            n += 1
+            ok = covered(exc)
+            why = ""
+            if not ok:
+                why = I11_UNREACHABLE.get((fn_._qualname, exc))
+                ok = why is not None
+            ctx.ob("I11", r_, f"{fn_._qualname}: a failure raised while realising a Roland sample is of a type the record loops swallow", ok,
+                   "" if ok else f"`raise {exc}` is not handled by the per-record handlers {sorted(handled)}: one bad sample aborts the listing / export of all others",
+                   inst=f"{fn_._qualname}:{exc}")
+    nfat = ctx.const(RO + "data_types.py", "FAT_NUM_ENTRIES", "I11")
+    ctx.ob("I11", root, "the Roland allocation table has an entry for every 16-bit cluster number", isinstance(nfat, int) and nfat >= 0x10000, f"{nfat}", inst="fat-covers-u16")
+    ctx.fact("I11", "functions", sorted(f_._qualname for f_, _c in seen.values()))
+    if n < 3:
+        raise AnalysisError("I11", "-", f"only {n} raise sites on the Roland sample path (confirmed: 3)")
+
+
 def rule_I1(ctx):
     """a swallowed parse error of one record does not change where / whether the other records are read"""
     # (a) AKAI file table
